@@ -321,6 +321,8 @@ pub fn run_case(ctx: &Ctx, case: u64, ev: &mut Ev) {
         ev.nontrivial(h.fin());
     }
     if ev.want_sample() {
-        ev.sample(json!({"kind": format!("{:?}", kind), "lp_calls": n, "plans": plans_run, "plans_that_changed_an_answer": effective, "f_nodes": fs.nodes.len()}));
+        ev.sample(json!({"kind": format!("{:?}", kind), "lp_calls_in_fault_free_run": n, "fault_plans_executed": plans_run, "plans_that_changed_an_answer": effective,
+            "example_plans": [{"single_fault": {"call": 0, "fault": "Error"}}, {"single_fault": {"call": n - 1, "fault": "FarWitness(1e12)"}}, {"all_calls": "Unbounded"}],
+            "history_of_f": hist_desc, "f": fs.to_json(), "g": gsn.as_ref().map(|s| s.to_json())}));
     }
 }
